@@ -1,6 +1,7 @@
 import re
 from copy import copy, deepcopy
 
+from mindsdb_sql.exceptions import ParsingException
 from mindsdb_sql.parser.ast.base import ASTNode
 from mindsdb_sql.parser.utils import indent
 from mindsdb_sql.parser.ast.select import Star
@@ -40,7 +41,8 @@ def get_reserved_words():
 class Identifier(ASTNode):
     def __init__(self, path_str=None, parts=None, *args, **kwargs):
         super().__init__(*args, **kwargs)
-        assert path_str or parts, "Either path_str or parts must be provided for an Identifier"
+        if not (path_str or parts):
+            raise ParsingException('Identifier can not be empty: either path_str or parts must be provided')
         assert not (path_str and parts), "Provide either path_str or parts, but not both"
         if isinstance(path_str, Star) and not parts:
             parts = [Star()]
